@@ -416,3 +416,205 @@ func init() {
 			return out
 		}})
 }
+
+// LOOPALIAS — a loop does not file the same buffer under every index.
+//
+// `coeff := NewPoly(); for i := … { sampler.Read(coeff); gen[i] = coeff }` stores, under every index, a header that
+// refers to the same coefficients: after the loop all gen[i] are the last sample. (With the Shamir polynomial this
+// leaves one random coefficient instead of t-1: two parties reconstruct the secret.)
+//
+// Rule: in a loop, an assignment `X[e] = v` (or `X = append(X, v)`) of a variable v whose type shares storage when
+// copied (slice, pointer, polynomial) and all of whose definitions lie outside the loop body is not accompanied, in
+// the same body, by a write *into* v (destination of a ring operation or of a sampler Read, in-place method, element
+// store).
+func scanLoopAlias(c *core.Ctx) []ob {
+	var out []ob
+	n := 0
+	c.FuncDecls(func(pk *packages.Package, file *ast.File, fd *ast.FuncDecl) {
+		if fd.Body == nil || fileIsTestSupport(c.Program, fd.Pos()) || inExamples(pk) {
+			return
+		}
+		info := pk.TypesInfo
+		fkey := core.FuncKey(pk, fd)
+		// definition positions of locals
+		defPos := map[types.Object][]token.Pos{}
+		ast.Inspect(fd.Body, func(x ast.Node) bool {
+			switch v := x.(type) {
+			case *ast.AssignStmt:
+				for _, l := range v.Lhs {
+					if id, ok := l.(*ast.Ident); ok {
+						o := info.Defs[id]
+						if o == nil {
+							o = info.Uses[id]
+						}
+						if o != nil {
+							defPos[o] = append(defPos[o], v.Pos())
+						}
+					}
+				}
+			case *ast.ValueSpec:
+				for _, id := range v.Names {
+					if o := info.Defs[id]; o != nil {
+						defPos[o] = append(defPos[o], v.Pos())
+					}
+				}
+			case *ast.RangeStmt:
+				for _, e := range []ast.Expr{v.Key, v.Value} {
+					if id, ok := e.(*ast.Ident); ok && id != nil {
+						if o := info.Defs[id]; o != nil {
+							defPos[o] = append(defPos[o], v.Body.Pos()) // re-bound at every iteration
+						}
+					}
+				}
+			}
+			return true
+		})
+		ast.Inspect(fd.Body, func(x ast.Node) bool {
+			var body *ast.BlockStmt
+			switch l := x.(type) {
+			case *ast.ForStmt:
+				body = l.Body
+			case *ast.RangeStmt:
+				body = l.Body
+			default:
+				return true
+			}
+			// stores of a variable into an indexed container / append
+			type store struct {
+				v  types.Object
+				at ast.Node
+			}
+			var stores []store
+			ast.Inspect(body, func(y ast.Node) bool {
+				as, ok := y.(*ast.AssignStmt)
+				if !ok || len(as.Lhs) != len(as.Rhs) {
+					return true
+				}
+				for i, l := range as.Lhs {
+					var val ast.Expr
+					if _, isIdx := unparen(l).(*ast.IndexExpr); isIdx {
+						val = as.Rhs[i]
+					} else if call, ok := unparen(as.Rhs[i]).(*ast.CallExpr); ok {
+						if id, ok := unparen(call.Fun).(*ast.Ident); ok && id.Name == "append" && len(call.Args) == 2 && !call.Ellipsis.IsValid() {
+							val = call.Args[1]
+						}
+					}
+					if val == nil {
+						continue
+					}
+					val = unparen(val)
+					if u, ok := val.(*ast.UnaryExpr); ok && u.Op == token.AND {
+						val = unparen(u.X)
+					}
+					id, ok := val.(*ast.Ident)
+					if !ok {
+						continue
+					}
+					v, ok := info.Uses[id].(*types.Var)
+					if !ok || v.IsField() || !sharesStorage(v.Type()) {
+						continue
+					}
+					if _, isAddr := unparen(as.Rhs[i]).(*ast.UnaryExpr); !isAddr {
+						// plain value: only storage-sharing types alias; &v always does
+					}
+					inside := false
+					for _, p := range defPos[v] {
+						if p >= body.Pos() && p <= body.End() {
+							inside = true
+						}
+					}
+					if inside || len(defPos[v]) == 0 {
+						continue // defined per iteration, or a parameter (the caller's business)
+					}
+					stores = append(stores, store{v, as})
+				}
+				return true
+			})
+			for _, st := range stores {
+				n++
+				key := fmt.Sprintf("LOOPALIAS:%s#%s", fkey, st.v.Name())
+				written := false
+				var how string
+				for _, w := range collectWrites(info, body) {
+					if w.how == "assignment" {
+						// v = … re-binds (would be a definition inside); v[i] = … writes into it
+						if _, plain := unparen(w.target).(*ast.Ident); plain {
+							continue
+						}
+					}
+					if id := rootIdent(w.target); id != nil && info.Uses[id] == st.v {
+						written, how = true, w.how+" at "+c.Rel(w.pos)
+					}
+				}
+				// sampler.Read(v) / ReadNew style fills
+				ast.Inspect(body, func(y ast.Node) bool {
+					if call, ok := y.(*ast.CallExpr); ok {
+						if se, ok := unparen(call.Fun).(*ast.SelectorExpr); ok && (se.Sel.Name == "Read" || se.Sel.Name == "ReadAndAdd" || se.Sel.Name == "Copy" || se.Sel.Name == "CopyLvl") {
+							for _, a := range call.Args {
+								if id := rootIdent(a); id != nil && info.Uses[id] == st.v && se.Sel.Name != "Copy" && se.Sel.Name != "CopyLvl" {
+									written, how = true, se.Sel.Name+" at "+c.Rel(call.Pos())
+								}
+							}
+							if id := rootIdent(se.X); id != nil && info.Uses[id] == st.v && (se.Sel.Name == "Copy" || se.Sel.Name == "CopyLvl") {
+								written, how = true, se.Sel.Name+" at "+c.Rel(call.Pos())
+							}
+						}
+					}
+					return true
+				})
+				if written {
+					out = append(out, withProps(violOb("LOOPALIAS", key, c.Rel(st.at.Pos()), fmt.Sprintf("%s files %s, allocated once outside the loop, under every index while the loop writes into it (%s): all the elements refer to the same storage and hold the last value", fkey, st.v.Name(), how)), propsForKey(fkey)...))
+				} else {
+					out = append(out, withProps(okOb("LOOPALIAS", key, c.Rel(st.at.Pos()), "the shared value is not written inside the loop", true), propsForKey(fkey)...))
+				}
+			}
+			return true
+		})
+	})
+	c.Stats["loopalias_sites"] = n
+	if !c.IsFixture {
+		out = append(out, okOb("LOOPALIAS", "LOOPALIAS:summary", "", fmt.Sprintf("%d stores of an outer storage-sharing variable into an indexed container inside a loop examined", n), true))
+	}
+	return out
+}
+
+func init() {
+	core.Register(&core.Rule{Name: "LOOPALIAS", Wide: true, Props: []string{"C01", "C02", "C03", "C04", "C05", "C06", "C07", "C08", "C09", "C10", "C11", "C12", "C13", "C14", "C15", "C16", "C17", "C18", "C19", "C20"},
+		Doc: "in a loop, a storage-sharing variable (slice, pointer, polynomial) all of whose definitions lie outside the loop body is not both stored into an indexed container (X[e] = v, append) and written into (ring destination, sampler Read, in-place method, element store) in that body",
+		Run: func(c *core.Ctx) []ob {
+			out := scanLoopAlias(c)
+			out = append(out, control(c, "LOOPALIAS", scanLoopAlias, "lvfixture.drawCoeffs")...)
+			return out
+		}})
+}
+
+// propsForKey: the properties anchored in the package of a function key (for rules that apply to the whole module).
+func propsForKey(fkey string) []string {
+	switch {
+	case strings.HasPrefix(fkey, "ring/ringqp"), strings.HasPrefix(fkey, "ring."):
+		return []string{"C01", "C02", "C17"}
+	case strings.HasPrefix(fkey, "core/rgsw"):
+		return []string{"C20"}
+	case strings.HasPrefix(fkey, "core/rlwe"):
+		return []string{"C03", "C04", "C11"}
+	case strings.HasPrefix(fkey, "schemes/bgv"):
+		return []string{"C05", "C07"}
+	case strings.HasPrefix(fkey, "schemes/ckks"):
+		return []string{"C06", "C07"}
+	case strings.Contains(fkey, "lintrans"):
+		return []string{"C12"}
+	case strings.Contains(fkey, "polynomial"), strings.Contains(fkey, "minimax"), strings.Contains(fkey, "comparison"), strings.Contains(fkey, "inverse"):
+		return []string{"C13"}
+	case strings.HasPrefix(fkey, "circuits/"):
+		return []string{"C18"}
+	case strings.HasPrefix(fkey, "multiparty/mp"):
+		return []string{"C16"}
+	case strings.HasPrefix(fkey, "multiparty"):
+		return []string{"C14", "C15", "C16"}
+	case strings.HasPrefix(fkey, "utils/sampling"):
+		return []string{"C17"}
+	case strings.HasPrefix(fkey, "utils"):
+		return []string{"C08", "C10", "C13"}
+	}
+	return []string{"C04"}
+}
